@@ -3,11 +3,12 @@
    at the real numbers (`ROps`, exact arithmetic); the correspondence check runs the same generic
    definitions at binary64 (`FOps`) against src/cluster/kmeans.rs and
    src/algorithm/neighbour/bbd_tree.rs, on the implementation's own tree dumps and recorded seedings,
-   and evaluates `wf_bbd` (the hypothesis below) on every dumped tree.
+   and evaluates `wf_bbd` (the hypothesis below) and `post_ok` (the hypothesis of
+   C12_tree_of_nodes_postorder) on every dumped tree / node vector.
    Notation: `asg memb r` is the label of row r, `lsum f l` the sum of f over the index list l,
    `lcount p l` the number of indices in l satisfying p. *)
 From Coq Require Import List Arith Bool Reals Lra Lia.
-From SC Require Import Base.Num C12.Model C12.ProofsBase C12.ProofsTree C12.ProofsFilter C12.ProofsKMeans C12.ProofsBuild C12.ProofsKpp C12.ProofsLloyd C12.ProofsFit.
+From SC Require Import Base.Num C12.Model C12.ProofsBase C12.ProofsTree C12.ProofsFilter C12.ProofsKMeans C12.ProofsBuild C12.ProofsKpp C12.ProofsLloyd C12.ProofsFit C12.ProofsPredict C12.ProofsNodes.
 Import ListNotations.
 Open Scope R_scope.
 
@@ -94,6 +95,121 @@ Theorem C12_predict_nearest : forall maxv cents row,
   forall j, (j < length cents)%nat ->
     sqdist ROps row (nth (predict_row ROps maxv cents row) cents []) <= sqdist ROps row (nth j cents []).
 Proof. exact predict_nearest. Qed.
+
+(* KMeans::predict on a whole query matrix, with the tie-breaking of the code: the label of EVERY row
+   of x is an index < k (k = number of centroids predict looks at: the first km_k of km_centroids)
+   whose squared Euclidean distance to the row is <= that of every other centroid, and it is the
+   SMALLEST index among the minimisers (the loop runs j = 0..k-1 with the strict `dist < min_dist`,
+   so a later centroid at the same distance never replaces an earlier one).  The three clauses
+   determine the label (ProofsPredict.predict_row_unique).  Hypothesis as in C12_predict_nearest:
+   for every row some centroid is closer than the initial `T::max_value()` (in particular k >= 1;
+   over floats: some squared distance is finite and below f64::MAX). *)
+Theorem C12_predict_argmin : forall maxv (m : kmeans (T := R)) (x : list (list R)),
+  let cents := firstn (km_k m) (km_centroids m) in
+  (forall i, (i < length x)%nat ->
+     exists j, (j < length cents)%nat /\ sqdist ROps (nth i x []) (nth j cents []) < maxv) ->
+  length (predict ROps maxv m x) = length x /\
+  forall i, (i < length x)%nat ->
+    let b := nth i (predict ROps maxv m x) 0%nat in
+    let row := nth i x [] in
+    (b < length cents)%nat /\
+    (forall j, (j < length cents)%nat -> sqdist ROps row (nth b cents []) <= sqdist ROps row (nth j cents [])) /\
+    (forall j, (j < b)%nat -> sqdist ROps row (nth b cents []) < sqdist ROps row (nth j cents [])).
+Proof. exact predict_argmin. Qed.
+
+(* the one-row form of the same statement (for every centroid list and every row) *)
+Theorem C12_predict_row_argmin : forall maxv cents row,
+  (exists j, (j < length cents)%nat /\ sqdist ROps row (nth j cents []) < maxv) ->
+  let b := predict_row ROps maxv cents row in
+  (b < length cents)%nat /\
+  (forall j, (j < length cents)%nat -> sqdist ROps row (nth b cents []) <= sqdist ROps row (nth j cents [])) /\
+  (forall j, (j < b)%nat -> sqdist ROps row (nth b cents []) < sqdist ROps row (nth j cents [])).
+Proof. exact predict_row_argmin. Qed.
+
+(* Comparing squared distances is legitimate OVER R: the labels do not change when every distance
+   (and the initial max_value) is passed through a function that is strictly increasing on [0, oo)
+   before it is compared (`predict_by f`: the same loop with keys f(squared distance)) ... *)
+Theorem C12_predict_monotone_invariant : forall (f : R -> R) maxv (m : kmeans (T := R)) x,
+  (forall a b, 0 <= a -> 0 <= b -> a < b -> f a < f b) -> 0 <= maxv ->
+  predict_by f maxv m x = predict ROps maxv m x.
+Proof. exact predict_by_eq. Qed.
+
+(* ... in particular through sqrt, i.e. when the Euclidean distance `Distance::distance` =
+   squared_distance(..).sqrt() is compared instead of `Euclidian::squared_distance`; hence (with
+   C12_predict_argmin) the label is the first centroid at minimal EUCLIDEAN distance, which is what
+   the property's text says.
+   NOT true over floats: sqrt is monotone but not injective on binary64/f32 (adjacent floats in
+   [2^52,2^53)*4^e often share their correctly rounded square root), so after sqrt a strictly closer
+   centroid with a larger index can lose against the strict `<`: the variant is not bit-equivalent
+   to the code (seeded/C12f_1/notes.md; caught by the search family predict-exact-near-tie, not by
+   this theorem). *)
+Theorem C12_predict_sqrt_invariant : forall maxv (m : kmeans (T := R)) x,
+  0 <= maxv -> predict_by sqrt maxv m x = predict ROps maxv m x.
+Proof. exact predict_sqrt_eq. Qed.
+
+(* ---- the flat node vector exported by the hook vs. the inductive tree of the theorems ----
+   Generic in the element type.  `nodes_ok`: every entry is a leaf or has two children with smaller
+   indices (children are stored before their parent).  On every such vector tree_of_nodes succeeds
+   from every index with any fuel > index (the correspondence uses S (length nodes)), the result is
+   the tree obtained by following the child indices as BBDTree::filter does (`decodes`), and it does
+   not depend on the fuel. *)
+Theorem C12_tree_of_nodes_total : forall (T : Type) (nodes : list (raw_node (T := T))),
+  nodes_ok nodes = true ->
+  forall id, (id < length nodes)%nat ->
+  exists t, decodes nodes id t /\
+            (forall t', decodes nodes id t' -> t' = t) /\
+            forall fuel, (id < fuel)%nat -> tree_of_nodes fuel nodes id = Some t.
+Proof.
+  intros T nodes Hok id Hid. destruct (decode_total nodes Hok id Hid) as (t & Hd & Hf).
+  exists t. split; [exact Hd|]. split; [|exact Hf]. intros t' Hd'. exact (decodes_unique nodes id t' Hd' t Hd).
+Qed.
+
+(* whatever tree_of_nodes returns (any vector, any fuel) is the tree read off the child indices *)
+Theorem C12_tree_of_nodes_follows_indices : forall (T : Type) (nodes : list (raw_node (T := T))) fuel id t,
+  tree_of_nodes fuel nodes id = Some t -> decodes nodes id t.
+Proof. intros T nodes. exact (tree_of_nodes_decodes nodes). Qed.
+
+(* BBDTree::build_node pushes lower subtree, upper subtree, node: the vector is the post-order listing
+   `nodes_of 0 t`.  For EVERY tree t that listing satisfies the index invariant and the post-order
+   check, has tree_size t entries, and tree_of_nodes gives back exactly t from its last index. *)
+Theorem C12_nodes_roundtrip : forall (T : Type) (t : bbd (T := T)),
+  let nodes := nodes_of 0 t in
+  nodes_ok nodes = true /\ post_ok nodes = true /\ length nodes = tree_size t /\
+  tree_of_nodes (S (length nodes)) nodes (length nodes - 1) = Some t.
+Proof.
+  intros T t. destruct (nodes_of_roundtrip t) as (A & B & _ & D).
+  split; [exact A|]. split; [apply post_ok_complete|]. split; [exact B | exact D].
+Qed.
+
+(* conversely, on EVERY vector passing the post-order check `post_ok` (stack machine over the child
+   indices: a leaf pushes its index; an inner node must find its upper, then its lower child on top
+   of the stack and replaces them by its own index; exactly the last index remains) tree_of_nodes
+   succeeds with the correspondence's fuel from the last index, the tree has as many nodes as the
+   vector, and the vector is the post-order listing of that tree (so no entry is unreachable or
+   shared) *)
+Theorem C12_tree_of_nodes_postorder : forall (T : Type) (nodes : list (raw_node (T := T))),
+  post_ok nodes = true ->
+  exists t, tree_of_nodes (S (length nodes)) nodes (length nodes - 1) = Some t /\
+            tree_size t = length nodes /\ nodes = nodes_of 0 t /\ nodes_ok nodes = true.
+Proof. intros T nodes. exact (post_ok_decode nodes). Qed.
+
+(* hence OVER R the filtering-search theorems apply to the vector the construction stores: the tree
+   decoded from the post-order listing of a built tree is well-formed over the data
+   (C12_filter_exact / C12_lloyd_bookkeeping then apply to it) *)
+Theorem C12_stored_tree_wf : forall data t perm,
+  (forall r, In r data -> length r = length (hd [] data)) ->
+  (forall r1 r2, (r1 < length data)%nat -> (r2 < length data)%nat -> nth r1 data [] <> nth r2 data [] ->
+     exists q, Rabs (nth q (nth r1 data []) 0 - nth q (nth r2 data []) 0) >= 2 / 10000000000) ->
+  build ROps data = Some (t, perm) ->
+  let nodes := nodes_of 0 t in
+  post_ok nodes = true /\ tree_size t = length nodes /\
+  exists t', tree_of_nodes (S (length nodes)) nodes (length nodes - 1) = Some t' /\
+             wf_bbd ROps 0 data perm t' = true.
+Proof.
+  intros data t perm Hrect Hsep Hb. destruct (nodes_of_roundtrip t) as (_ & B & _ & D).
+  split; [apply post_ok_complete|]. split; [symmetry; exact B|].
+  exists t. split; [exact D | exact (build_wf _ _ _ Hrect Hsep Hb)].
+Qed.
 
 (* ---- tree construction: BBDTree::new / build_node, OVER THE REALS (model at ROps) ----
    Every tree the construction returns is well-formed, so C12_filter_exact / C12_lloyd_bookkeeping
@@ -341,3 +457,21 @@ Proof.
   intros r1 r2 H1 H2 Hne. exfalso. apply Hne.
   destruct r1 as [|[|r1]]; destruct r2 as [|[|r2]]; cbn [ex_dup length] in H1, H2; try lia; reflexivity.
 Qed.
+
+(* the hypothesis of C12_predict_argmin is satisfiable: three centroids 3, 0, 3 (two coincident), query
+   rows 1 and 3; the second row is at distance 0 from centroids 0 and 2 and gets label 0 *)
+Example C12_ex_predict_matrix :
+  let m := mkKMeans 3 [] [] 0 [[3]; [0]; [3]] in
+  let x := [[1]; [3]] in
+  forall i, (i < length x)%nat ->
+    exists j, (j < length (firstn (km_k m) (km_centroids m)))%nat /\
+              sqdist ROps (nth i x []) (nth j (firstn (km_k m) (km_centroids m)) []) < 1000.
+Proof. exact ex_predict_hyp. Qed.
+
+(* sqrt satisfies the hypothesis of C12_predict_monotone_invariant *)
+Example C12_ex_sqrt_increasing : forall a b, 0 <= a -> 0 <= b -> a < b -> sqrt a < sqrt b.
+Proof. exact sqrt_increasing_on_nonneg. Qed.
+
+(* a three-node vector satisfying nodes_ok and post_ok *)
+Example C12_ex_nodes : nodes_ok ex_nodes = true /\ post_ok ex_nodes = true /\ (2 < length ex_nodes)%nat.
+Proof. split; [reflexivity|]. split; [reflexivity|]. cbn. lia. Qed.
